@@ -46,7 +46,20 @@ func checkC07(r *harness.Run) harness.Coverage {
 	for _, bad := range []string{"nosuch(@)", "abs(`\"x\"`)", "length(@, @)"} {
 		fieldExprs = append(fieldExprs, exprFromText("a || "+bad), exprFromText("a && "+bad), exprFromText(bad+" || a"), exprFromText("!a || "+bad), exprFromText("a == b || "+bad), exprFromText("a < b && "+bad))
 	}
+	// repeated comparisons inside one expression (an interpreter-level memo of compared pairs must not leak)
+	fieldExprs = append(fieldExprs, exprFromText("[a == b, a == b]"), exprFromText("[a != b, a == b, a != b, b == a]"), exprFromText("[a == a, a == b, b == b]"), exprFromText("(a == b) == (a == b)"))
 	run(fieldExprs, pairDocs)
+	// the same operators with a literal operand, on roots of every JSON type (incl. a null current node)
+	var rootExprs []exprCase
+	for _, lit := range []string{"'d'", "`null`", "`1`", "`[]`", "`false`", "`{\"a\":1}`"} {
+		for _, op := range ops {
+			rootExprs = append(rootExprs, exprFromText("a "+op+" "+lit), exprFromText(lit+" "+op+" a"), exprFromText("@ "+op+" "+lit))
+		}
+		rootExprs = append(rootExprs, exprFromText("a || b || "+lit), exprFromText("!a && "+lit), exprFromText("map(&(a || "+lit+"), @)"), exprFromText("[0] | (a || "+lit+")"))
+	}
+	rootExprs = append(rootExprs, exprFromText("a || b"), exprFromText("a && b"), exprFromText("!a"), exprFromText("a == b"), exprFromText("!@"), exprFromText("@ || @"))
+	rootDocs := univ.Js(`null`, `1`, `0`, `"s"`, `""`, `true`, `false`, `[]`, `[null]`, `[null, {"a":1}, {"a":null}, 1]`, `[{"a":1}]`, `{}`, `{"a":null}`, `{"a":1,"b":2}`, `{"b":0}`)
+	run(rootExprs, rootDocs)
 	// (2) operands as literals
 	var litExprs []exprCase
 	for _, x := range W {
@@ -79,6 +92,12 @@ func checkC07(r *harness.Run) harness.Coverage {
 	// (4) the same conditions inside filter expressions
 	var filterExprs []exprCase
 	filterExprs = append(filterExprs, exprFromText("[?@]"), exprFromText("[?!@]"), exprFromText("[?@ == @]"), exprFromText("[?@ || `false`]"), exprFromText("[?@ && `true`]"))
+	// comparisons with a literal inside a filter over arrays that also contain non-objects
+	for _, lit := range []string{"`null`", "`1`", "'a'", "`[]`", "`{}`", "`false`", "`true`", "`0`"} {
+		for _, op := range ops {
+			filterExprs = append(filterExprs, exprFromText("[?a "+op+" "+lit+"]"), exprFromText("[?"+lit+" "+op+" a]"), exprFromText("[?a.a "+op+" "+lit+"].c"), exprFromText("[?@ "+op+" "+lit+"]"))
+		}
+	}
 	nestF := buildExprs(g, maxTok-2, nil)
 	for _, e := range nestF {
 		filterExprs = append(filterExprs, exprFromText("[?"+e.text+"]"), exprFromText("[?"+e.text+"].c"))
